@@ -465,7 +465,7 @@ func extractRead(fd *ast.FuncDecl) []rstep {
 	}
 	res := fd.Type.Results.List[0].Names[0].Name
 	setBucketVar(fd)
-	vars := map[string]byte{}   // local -> suffix it was read from
+	vars := map[string]byte{}    // local -> suffix it was read from
 	pending := map[string]bool{} // local checked with `== nil { NotFound; return }`
 	var steps []rstep
 	body := fd.Body.List
